@@ -27,6 +27,32 @@ def check_c16(prop, tier, replay):
         return [tlc_mc("TableMembersMC.tla", "TM_mc3.cfg", 6, 1200), tlc_mc("SeatManagerMC.tla", "SM_mc3.cfg", 6, 1200)]
     fut = pool.submit(models)
     d = scratch("conc")
+
+    # ---- the lock-level model (Conc.tla).  With every lock in place each interleaving of each batch must be serialisable;
+    # with one lock left out TLC prints the interleavings that are not -- those are the schedules forced on the real code.
+    def conc_models():
+        res = {"locked": [], "sched": {}}
+        cfgs = ["Conc_locked2.cfg", "Conc_sm_locked2.cfg"] + (["Conc_locked3.cfg", "Conc_sm_locked3.cfg"] if tier == "thorough" else [])
+        def one(c):
+            if c.startswith("Conc_noLock"):
+                return c, tlc_mc("Conc.tla", c, 4, 1200, extra=["-deadlock"])
+            return c, tlc_mc("Conc.tla", c, 6, 1800)
+        with ThreadPoolExecutor(max_workers=3) as ex:
+            for c, r in ex.map(one, cfgs + ["Conc_noLockReserve.cfg", "Conc_noLockLeave.cfg", "Conc_noLockUpdate.cfg", "Conc_noLockSM.cfg"]):
+                if not c.startswith("Conc_noLock"):
+                    res["locked"].append(r)
+                    continue
+                lines = []
+                for l in r["out"].splitlines():
+                    if l.startswith('<<"SCHED", '):
+                        try:
+                            lines.append(json.loads(json.loads(l[len('<<"SCHED", '):-2])))
+                        except Exception:
+                            pass
+                res["sched"][c] = (r, lines)
+        return res
+    pool2 = ThreadPoolExecutor(max_workers=1)
+    futc = pool2.submit(conc_models)
     per = 40 if tier == "quick" else 300
     base = vlib.seed() * 100000
     jobs = []
@@ -66,6 +92,43 @@ def check_c16(prop, tier, replay):
             except Exception:
                 pass
             files.append(out)
+    # ---- forced schedules from the lock-level model
+    import random
+    cm = futc.result()
+    rnd = random.Random(vlib.seed())
+    per_cfg = 120 if tier == "quick" else 2500
+    sched_stats = {}
+    sjobs = []
+    for c, (r, lines) in sorted(cm["sched"].items()):
+        if r.get("error") or r.get("violated"):
+            raise Inconclusive("Conc.tla/%s: TLC did not complete: %s\n%s" % (c, r.get("error") or r.get("violated"), r["out"][-1500:]))
+        if not lines:
+            raise Inconclusive("Conc.tla/%s printed no schedule: with a lock left out the model must have non-serialisable interleavings" % c)
+        pick = lines if len(lines) <= per_cfg else rnd.sample(lines, per_cfg)
+        sched_stats[c] = {"non_serialisable_terminal_states": len(lines), "forced": len(pick), "states": r.get("states"), "distinct": r.get("distinct")}
+        nparts = 4
+        for k in range(nparts):
+            part = pick[k::nparts]
+            if not part:
+                continue
+            fin = os.path.join(d, "sched-%s-%d.json" % (c[:-4], k))
+            with open(fin, "w") as g:
+                for x in part:
+                    g.write(json.dumps(x) + "\n")
+            out = os.path.join(d, "sched-%s-%d.ndjson" % (c[:-4], k))
+            sjobs.append(([VH, "sched", "--in", fin, "--out", out], out, c))
+    with ThreadPoolExecutor(max_workers=4) as ex:
+        for (cmd, out, c), p in ex.map(lambda j: (j, subprocess.run(j[0], capture_output=True, text=True, timeout=2400, env=GOENV)), sjobs):
+            if p.returncode != 0:
+                raise Inconclusive("vh sched died: " + p.stderr[-800:])
+            try:
+                summ = json.loads([l for l in p.stdout.splitlines() if l.startswith("{")][-1])
+                for k2 in ("blocked", "ran", "diverged", "hang"):
+                    sched_stats[c][k2] = sched_stats[c].get(k2, 0) + summ.get(k2, 0)
+            except Exception:
+                pass
+            files.append(out)
+    ck.cov["forced_schedules_from_model"] = sched_stats
     merged = os.path.join(d, "conc.ndjson")
     with open(merged, "wb") as g:
         for f in files:
@@ -93,6 +156,11 @@ def check_c16(prop, tier, replay):
     for r in fut.result():
         require_mc(r, r["spec"] + "/" + r["cfg"])
         ck.add_model(r, "sequential specification the concurrent batches are linearised against")
+    for r in cm["locked"]:
+        require_mc(r, r["spec"] + "/" + r["cfg"])
+        ck.add_model(r, "lock-level model: every interleaving of every batch at hook-point granularity is serialisable and leaves C03 intact")
+    for c, (r, lines) in sorted(cm["sched"].items()):
+        ck.add_model(r, "lock-level model with one lock left out: %d non-serialisable terminal states, each printed as a schedule" % len(lines))
     ck.assumptions = ["interleavings are sampled (goroutine storms under several GOMAXPROCS settings) and forced at hook-point granularity; TLC cannot explore the Go scheduler",
                       "the race detector is not used"]
     return ck.finish({"explanation": "traces_validated_against_impl = concurrent batches whose results and final state TLC matched against some serial order of the sequential model"})
